@@ -94,25 +94,35 @@ def kvs(line):
 
 
 class Driver:
-    """Lock-step line protocol with the compiled Lean model."""
+    """Lock-step line protocol with the compiled Lean model.
+
+    Fork-aware: a driver object inherited by a forked worker (thorough tier) must not share the parent's pipes,
+    so the first request made from another process starts a fresh driver process for that process.
+    """
 
     def __init__(self, machine):
+        self.machine = machine
+        self.log = []
+        self._spawn()
+
+    def _spawn(self):
         for _ in range(240):
             if os.path.exists(DRIVER):
                 break
             time.sleep(0.5)  # a concurrent `lake build driver` replaces the binary
         else:
             raise Infra(f"driver not built: {DRIVER}")
-        self.machine = machine
-        self.p = subprocess.Popen([DRIVER, machine],
+        self._pid = os.getpid()
+        self.p = subprocess.Popen([DRIVER, self.machine],
                                   stdin=subprocess.PIPE,
                                   stdout=subprocess.PIPE,
                                   text=True,
                                   bufsize=1)
-        self.log = []
 
     def ask(self, line):
         assert "\n" not in line
+        if os.getpid() != self._pid:
+            self._spawn()
         self.p.stdin.write(line + "\n")
         self.p.stdin.flush()
         out = self.p.stdout.readline()
@@ -124,6 +134,8 @@ class Driver:
         return out
 
     def close(self):
+        if os.getpid() != self._pid:
+            return  # the parent's process: not ours to close
         try:
             self.p.stdin.close()
             self.p.wait(timeout=5)
